@@ -232,10 +232,10 @@ pub fn check_case(case: &Case) -> CheckResult {
 
 pub fn run(tier: Tier, seed: u64) -> i32 {
     let stats = Stats::new(PROP, tier, seed);
-    let nctx = tier.pick(4, 7);
+    let nctx = 7;
     let hists: Vec<History> = match tier {
-        Tier::Quick => vec![History::Plain],
-        Tier::Thorough => vec![History::Plain, History::Replaced, History::ExtraRemoved, History::Reversed],
+        Tier::Quick => vec![History::Plain, History::Replaced, History::ExtraBroken],
+        Tier::Thorough => vec![History::Plain, History::Replaced, History::ExtraRemoved, History::Reversed, History::ExtraBroken],
     };
     let n = 3 * 3 * 4 * nctx * 3 * hists.len() * 2;
     super::drive(
